@@ -56,7 +56,18 @@ def finish(chk, col, pid):
     chk.extra["probe_runs"] = col.runs
     chk.extra["stray_wakes_delivered"] = col.stray_delivered
     chk.extra["faults_injected"] = col.injected
-    chk.extra["runs"] = col.summaries
+    chk.extra["runs"] = col.summaries[:40]
+    chk.extra["runs_total"] = len(col.summaries)
+    chk.assumptions = [
+        "x86_64 only (the aarch64 trampoline is not executed)",
+        "at most 2 concurrently live threads in the exhaustive model configurations and the replayed tours; thousands only in free-running batches",
+        "kernel steps after a thread's last user-space point (munmap of its own stack, exit, clear-tid store, futex wake) are separate steps in the exhaustive model but one step in the replay (a user-space scheduler cannot interleave them)",
+        "happens-before is judged from the memory-ordering argument of the loads of the exit futex word as reported by the tiny_std::verif shim; atomic accesses are sequentially consistent in the model; hardware reorderings are not observed",
+        "use after release is judged from the order of announced accesses (protocol points) and logged frees; freed memory is not poisoned",
+        "the probe's global allocator is its counting wrapper around Mutex<Dlmalloc>, the same composition as tiny-std's global-allocator feature, not that feature's private static itself",
+        "spurious futex returns are produced by a real process-shared FUTEX_WAKE from another thread; EINTR (signal delivery during the wait) is not produced",
+        "fault injection covers the two system calls spawn performs (stack mmap, clone); allocation failure inside spawn is not injected",
+    ]
     if other:
         chk.extra["rules_broken_belonging_to_other_property"] = sorted({f.rule for f in other})
     for c in sorted(col.classes, key=str)[:6]:
